@@ -4,6 +4,8 @@ import (
 	"bytes"
 	"encoding/json"
 	"fmt"
+	"io"
+	stdlog "log"
 	"math/rand"
 	"os"
 	"sort"
@@ -461,6 +463,7 @@ func ReplayAndValidate(c *core.Ctx, g *Gen, beh [][]int, corrupt bool) (*Outcome
 	// the repository prints debugging lines with fmt.Println (prepareTimeBasedTriggers) and logs with
 	// zerolog: keep the verdict output readable
 	zerolog.SetGlobalLevel(zerolog.Disabled)
+	stdlog.SetOutput(io.Discard) // chi's request logger in the API router
 	realStdout := os.Stdout
 	if devnull, err := os.OpenFile(os.DevNull, os.O_WRONLY, 0); err == nil {
 		os.Stdout = devnull
